@@ -26,7 +26,7 @@ pub fn run(prop: &str, ctx: &mut Ctx) -> bool {
         "C06" => c06::run(ctx),
         "C05" => c05::run(ctx),
         "C19" => c19::run(ctx),
-        "C07" => c07::run(ctx),
+        "C07" => { c07::run(ctx); c13::run_device_chosen(ctx); }
         "C10" => c10::run(ctx),
         "C12" => c12::run(ctx),
         "C11" => c11::run(ctx),
